@@ -141,6 +141,7 @@ def run_case(case):
         c_.execute("PRAGMA journal_mode=DELETE")
         c_.close()
         sha_before = _sha(legacy)
+        sib_before = set(os.listdir(ddir))
         rows_before = stores.fresh_dump(legacy)
         with sut("SqliteStorage(testing) next to a legacy database (migration)"):
             new = Datastore(SqliteStorage, testing=testing)
@@ -182,7 +183,7 @@ def run_case(case):
             raise Violation("the migration changed the contents of the legacy database")
         if _sha(legacy) != sha_before:
             raise Violation("the migration rewrote the legacy database file (bytes differ)")
-        sib = [f for f in os.listdir(ddir) if f.startswith(os.path.basename(legacy)) and f != os.path.basename(legacy)]
+        sib = [f for f in os.listdir(ddir) if f.startswith(os.path.basename(legacy)) and f != os.path.basename(legacy) and f not in sib_before]
         if sib:
             raise Violation(f"the migration left files next to the legacy database: {sib}")
     finally:
